@@ -7,6 +7,7 @@ package main
 import (
 	"encoding/json"
 	"fmt"
+	verifshim "github.com/aquilax/hranoprovod-cli/v3/verifshim"
 	"hash/fnv"
 	"os"
 	"runtime/debug"
@@ -255,6 +256,9 @@ func (w *Worker) runOne(name string, prefix []int, abortAt int, opt ExploreOpts,
 			fatalHarness("unexpected panic in harness %s at choices %v: %v\n%s", name, x.choices(), r, debug.Stack())
 		}
 	}()
+	// every execution starts from freshly initialised package-level variables of the repository: an execution is a
+	// function of its choices (what a call leaves behind for the NEXT call is explored explicitly, as call sequences)
+	verifshim.ResetPackageState()
 	body(x)
 	if len(x.trace) < len(prefix) {
 		hfail("replay divergence in %s: execution made %d choices, prefix has %d", name, len(x.trace), len(prefix))
